@@ -97,8 +97,8 @@ def validate(ctx, proj, tag):
 # ------------------------------------------------------------------------------------------------
 def mc_trees(ctx):
     """exhaustive model checking of the design model; returns the emitted scope trees"""
-    cfgs = ['JsRenamer_quick.cfg', 'JsRenamer_withq.cfg', 'JsRenamer_with3q.cfg', 'JsRenamer_withnames.cfg'] if ctx.quick() else \
-        ['JsRenamer_thorough.cfg', 'JsRenamer_three.cfg', 'JsRenamer_with.cfg', 'JsRenamer_with3.cfg', 'JsRenamer_withnames.cfg']
+    cfgs = ['JsRenamer_quick.cfg', 'JsRenamer_withq.cfg', 'JsRenamer_with3q.cfg', 'JsRenamer_withnames.cfg', 'JsRenamer_flatq.cfg'] if ctx.quick() else \
+        ['JsRenamer_thorough.cfg', 'JsRenamer_three.cfg', 'JsRenamer_with.cfg', 'JsRenamer_with3.cfg', 'JsRenamer_withnames.cfg', 'JsRenamer_flat.cfg']
     w = max(2, min(8, vlib.JOBS // 2))
 
     def mc(cfg):
@@ -113,13 +113,19 @@ def mc_trees(ctx):
     def inner(_):
         return vlib.tlc(ctx, 'JsRenamer', 'JsRenamer_withinner.cfg', workers=2, timeout=1200)
 
+    def flatg(_):
+        # ... and the order "renameScope(parent) first, bindings of flattened blocks move in afterwards"
+        return vlib.tlc(ctx, 'JsRenamer', 'JsRenamer_flatguard.cfg', workers=2, timeout=1200)
+
     vlib._speccopy(ctx)      # the scratch copy of spec/ is made once, before the parallel TLC runs
-    with ThreadPoolExecutor(max_workers=len(cfgs) + 2) as ex:
+    with ThreadPoolExecutor(max_workers=len(cfgs) + 3) as ex:
         fx = ex.submit(cross, None)
         fi = ex.submit(inner, None)
+        ff = ex.submit(flatg, None)
         results = list(ex.map(mc, cfgs))
         rx = fx.result()
         ri = fi.result()
+        rf = ff.result()
     trees = []
     for cfg, r in zip(cfgs, results):
         n0 = len(trees)
@@ -130,8 +136,10 @@ def mc_trees(ctx):
     g1, g2 = 'WithCross' in rx['invariant_violations'], 'CaptureFree' in ri['invariant_violations']
     ctx.coverage['old_design_guard_WithCross_violated'] = g1
     ctx.coverage['old_design_guard_WithInner_violated'] = g2
-    if not (g1 and g2):
-        raise vlib.Infra('wrong-design guard no longer violates (withcross=%s withinner=%s)' % (g1, g2))
+    g3 = 'CaptureFree' in rf['invariant_violations']
+    ctx.coverage['wrong_order_guard_MoveAfterRename_violated'] = g3
+    if not (g1 and g2 and g3):
+        raise vlib.Infra('wrong-design guard no longer violates (withcross=%s withinner=%s flatguard=%s)' % (g1, g2, g3))
     return trees
 
 
@@ -383,7 +391,9 @@ def run(ctx):
              'before the inner declaration; (2) var inside a class static block; (3) parameter defaults/patterns and '
              'array/object literals with identifiers inside an object-literal method written inside a parenthesised '
              'expression; (4) a function whose parameter default references a name that its body declares with var, or '
-             'declares at all when the function has a rest parameter. Repository inputs with a function declaration '
+             'declares at all when the function has a rest parameter. Model trees with a flattened block never refer, '
+             'outside the block, to a name the block declares (the flattening itself then changes the name-keeping '
+             'output - reported to C01). Generated programs are spread over js.Minifier.Version 0/5/2015/2018/2019/2020. Repository inputs with a function declaration '
              'nested in a block (Annex B.3.3 not modelled) are outside the quantifier: counted in projection_status, '
              'not judged. Programs whose name-keeping output does not parse (var hoisted next to a let of the same '
              'name - a C09 matter) have no reference world: counted in keep_output_unparseable, not judged',
